@@ -113,7 +113,11 @@ PROPS = {
             "C10_compile_wellformed_example": [],
             "C10_compile_wellformed_module": [],
             "C10_module_in_range_program": [],
-            "C10_name_collision_observation": [],
+            "C10_name_collision_hashes": [],
+            "C10_name_collision_repaired": [],
+            "C10_name_collision_legacy": [],
+            "C10_compile_names_distinct": [],
+            "C10_global_id_records_name": [],
             "C10_add_local_slot": [],
             "C10_resolve_var_in_scope": [],
             "C10_close_upvalue_slot": [],
@@ -123,7 +127,7 @@ PROPS = {
                "obs.err.ERecursionLimitReached", "card.closure.nested", "card.foreach", "card.repeat", "card.while",
                "card.array", "import.super", "import.module", "import.std", "main.not_first", "module.submodules",
                "str.len>252", "str.unicode", "disasm.compared", "globals.17+", "corpus.a23", "corpus.a24", "corpus.huge_upvalues",
-               "corpus.globals17", "obs.err.ETooManyLocals", "obs.err.EBadImport", "obs.err.EAmbigousImport", "obs.err.ENoMain",
+               "corpus.globals17", "corpus.global_name_collision", "obs.err.ETooManyLocals", "obs.err.EBadImport", "obs.err.EAmbigousImport", "obs.err.ENoMain",
                "obs.err.EDuplicateModule", "obs.err.EBadFunctionName", "obs.err.ESuperLimitReached"],
         rule="random modules (all 43 card kinds, nesting depth <= 4 (6), 0-4 functions per module, submodule trees of "
              "depth <= 3 with function / module / std / super imports, closures with upvalues, globals and locals, "
